@@ -446,6 +446,25 @@ fn check(case: &Case) -> Verdict {
                 ensure!((d.value().abs() - 2.0 * r).abs() <= 0.03 * r + 2.0 * t4, "C10/truth/gauge_thickness", "thickness on the camber at 40 % is {:e}, twice the local radius is {:e}", d.value().abs(), 2.0 * r);
             }
         }
+        // radius gauges: thickness where a circle of the given radius about the leading (r > 0) or trailing (r < 0) edge
+        // point meets the two surfaces: one end on each surface, both at that radius from that edge point
+        if truth.closed {
+            if let (Some(le), Some(te)) = (&geom.leading_edge, &geom.trailing_edge) {
+                for frac in [0.2, -0.2, 0.35, -0.3] {
+                    let rg = frac * s.chord;
+                    if let Ok(d) = geom.get_thickness(AfGage::Radius(rg)) {
+                        cx.label("radius_gauge");
+                        let centre = if rg > 0.0 { le.point } else { te.point };
+                        for (name, p) in [("first", d.a), ("second", d.b)] {
+                            ensure!(((p - centre).norm() - rg.abs()).abs() <= 1e-6 * s.chord, "C10/gauge/radius_not_from_edge", "radius gauge {rg:e}: its {name} end is {:e} from the {} edge point, not the gauge radius", (p - centre).norm(), if rg > 0.0 { "leading" } else { "trailing" });
+                        }
+                        // d.a is on the lower, d.b on the upper surface
+                        ensure!(dl.dist_to(&d.a) <= 1e-6 * s.chord && du.dist_to(&d.b) <= 1e-6 * s.chord, "C10/gauge/ends_not_on_surfaces", "radius gauge {rg:e}: ends are {:e} from the lower and {:e} from the upper surface", dl.dist_to(&d.a), du.dist_to(&d.b));
+                        ensure!((d.value().abs() - (d.a - d.b).norm()).abs() <= 1e-9 * s.chord, "C10/gauge/value", "radius gauge value {:e} is not the distance between its ends {:e}", d.value(), (d.a - d.b).norm());
+                    }
+                }
+            }
+        }
     } else {
         cx.label("faces_missing");
     }
